@@ -44,6 +44,11 @@ Step == ops < MaxOps /\ ops' = ops + 1
 
 Pinned(s) == { h \in handles : h.s = s /\ h.pinned }
 
+\* a pin followed by a release through DecRef: when a pending unpinned release exists the release consumes it, so one
+\* reference moves from "pending unpinned release" to rc (the accounting identity is unchanged)
+XferRc(S) == [s \in Segs |-> IF s \in S /\ tok[s] > 0 THEN rc[s] + 1 ELSE rc[s]]
+XferTok(S) == [s \in Segs |-> IF s \in S /\ tok[s] > 0 THEN tok[s] - 1 ELSE tok[s]]
+
 \* ---- acquisition -------------------------------------------------------
 \* SelectSegments(range, reopenClosed=TRUE): a query / writer.  Every listed segment in the range is
 \* reopened if needed and pinned.
@@ -56,6 +61,18 @@ AcquireReopen(c, S) ==
   /\ nextk' = nextk + 1
   /\ last' = [op |-> "select", c |-> c, segs |-> S, reopen |-> TRUE, k |-> nextk]
   /\ UNCHANGED <<tok, Flag, Dir, InList>>
+
+\* SelectSegments(range, reopenClosed=TRUE) where reopening the closed segment `bad` fails (its shard tables do not
+\* open): the call fails as a whole.  Segments are visited newest first; those visited before `bad` were reopened and
+\* pinned and must be released again (they stay open, dormant); nothing is handed out, nothing stays pinned.
+AcquireReopenFails(c, S, bad) ==
+  /\ Step /\ S # {} /\ S \subseteq InList /\ bad \in S /\ bad \notin Open /\ bad \notin Flag
+  /\ Open' = Open \cup { s \in S : s > bad }
+  \* (pin + release of the segments visited first: like a housekeeping scan, the release consumes a pending unpinned
+  \* release if there is one - XferRc / XferTok are defined below)
+  /\ rc' = XferRc({ s \in S : s > bad }) /\ tok' = XferTok({ s \in S : s > bad })
+  /\ last' = [op |-> "selectfail", c |-> c, segs |-> S, bad |-> bad]
+  /\ UNCHANGED <<Flag, Dir, InList, handles, nextk>>
 
 \* SelectSegments(range, reopenClosed=FALSE): a read-only stats peek.  Pins a segment only if somebody
 \* already holds it; never reopens, never touches a dormant one.
@@ -88,8 +105,6 @@ Release(h) ==
 \* Housekeeping scans pin a set of segments and release them again through the same DecRef.  When a
 \* pending unpinned release exists for such a segment the scan's own release consumes it, so one
 \* reference moves from "pending unpinned release" to rc (the accounting identity is unchanged).
-XferRc(S) == [s \in Segs |-> IF s \in S /\ tok[s] > 0 THEN rc[s] + 1 ELSE rc[s]]
-XferTok(S) == [s \in Segs |-> IF s \in S /\ tok[s] > 0 THEN tok[s] - 1 ELSE tok[s]]
 
 IdleReclaim ==     \* closeIdleSegments with every dormant segment past the idle threshold
   /\ Step
@@ -138,6 +153,7 @@ Collect ==         \* metrics collection (read lock only)
 Ranges == { {s} : s \in Segs } \cup { Segs }
 
 Next == \/ \E c \in Clients, R \in Ranges : AcquireReopen(c, R \cap InList) \/ AcquirePeek(c, R \cap InList)
+        \/ \E c \in Clients, R \in Ranges, bad \in Segs : AcquireReopenFails(c, R \cap InList, bad)
         \/ \E h \in handles : Release(h)
         \/ IdleReclaim
         \/ \E k \in 1..Cardinality(Segs) : Retention(k)
